@@ -83,7 +83,6 @@ theorem parseNodeTest_shape (cfg : PCfg) (inp : Ast) (axis : String) (mt : NType
         | split
         | (extract_lets _nm; clear_value _nm))
     · refine PSat.bind (PSat.triv _) fun st1 _ => ?_
-      dsimp only
       repeat' split
       all_goals first | exact PSat.pure (E_axis hi) | exact PSat.err
   · exact PSat.bind (PSat.triv _) fun st1 _ => PSat.pure (E_axis hi)
@@ -152,7 +151,9 @@ theorem step_chain {f : Nat} (ihChain : SChain cfg f) (ihTier : STier cfg f) (ih
       show E (if minus = true then _ else _)
       split
       · exact E_oper rfl h2 ⟨rfl, rfl⟩
-      · exact h2
+      · split
+        · exact E_oper rfl (E_oper rfl h2 ⟨rfl, rfl⟩) ⟨rfl, rfl⟩
+        · exact h2
 
 theorem step_tier {f : Nat} (ihChain : SChain cfg f) (ihTier : STier cfg f) : STier cfg (f+1) := by
   intro ops rest opnd st hops hk ho
